@@ -20,7 +20,7 @@ path, a later entry replaces an earlier one of the same name, Close removes ever
 entry, writeToZip loads the spilled shared strings before writing them, readBytes promotes,
 and every consumer of the decoded shared string table calls the loader first. -/
 theorem facts_ok :
-    Facts.C12.sizeGuardOp = ">" ∧ Facts.C12.sstGuardOp = ">" ∧ Facts.C12.sheetGuardOp = ">" ∧
+    Facts.C12.sizeGuardOp = ">" ∧ Facts.C12.sizeGuardRejectsNegative = true ∧ Facts.C12.sstGuardOp = ">" ∧ Facts.C12.sheetGuardOp = ">" ∧
     Facts.C12.sstGuardExcludesDir = false ∧ Facts.C12.sheetGuardExcludesDir = true ∧
     Facts.C12.sizeAccumulatedBeforeGuard = true ∧ Facts.C12.sizeGuardBeforeInflate = true ∧
     Facts.C12.openErrCleanup = true ∧ Facts.C12.dupReplaces = true ∧
@@ -52,35 +52,62 @@ theorem limit_rejects (l : Limits) (es : List Entry)
   have h := readZip_verdict l es {} 0 0 hio hnn
   simpa using h
 
-/-- the verdict of ReadZipReader (ok / size error / read error / panic) is a function of the
-limits and the zip directory alone — `verdictOf` never looks at the store — for **arbitrary**
-entry lists: entries whose `Open` fails give the read error, a negative declared size reaching
-`readFile` gives the panic of `make([]byte, 0, negative)`, exactly at the first entry where
-something goes wrong -/
+/-- the verdict of ReadZipReader is a function of the limits and the zip directory alone —
+`verdictOf` never looks at the store — for **arbitrary** entry lists: a declared size of 2^63 or
+more (negative `FileInfo().Size()`) or a running total above the limit gives the size error, an
+entry whose `Open` fails gives the read error, exactly at the first entry where something goes wrong -/
 theorem verdict_state_free (l : Limits) (es : List Entry) (st : St) (t : Int) (ws : Nat) :
     (readZip l st t ws es).verdict = verdictOf l t es := readZip_verdictOf l es st t ws
 
+/-- after the repair of the size guard **no panic outcome is left**: for every entry list, every
+limit pair and every starting state ReadZipReader returns ok, the size error or a read error
+(before the `fix:` commit an entry declaring >= 2^63 bytes reached `make([]byte, 0, negative)`) -/
+theorem open_never_panics (l : Limits) (es : List Entry) (st : St) (t : Int) (ws : Nat) :
+    (readZip l st t ws es).verdict ≠ .panic := by
+  rw [readZip_verdictOf]; exact verdictOf_ne_panic l es t
+
+theorem openReader_never_panics (l : Limits) (es : List Entry) (d : Disk) : openReader l es ≠ .panic d := by
+  intro h
+  unfold openReader at h
+  cases hc : checkOptions l with
+  | none => simp [hc] at h
+  | some l' =>
+    simp only [hc] at h
+    have np := open_never_panics l' es {} 0 0
+    cases hr : readZip l' {} 0 0 es with
+    | ok s w => rw [hr] at h; cases h
+    | sizeErr s => rw [hr] at h; simp at h
+    | readErr s => rw [hr] at h; simp at h
+    | panic s => rw [hr] at np; exact np rfl
+
 /-- `limit_rejects` without hypotheses on the entries: the size error is returned **iff** there is
-a first non-empty prefix whose declared total is `>` UnzipSizeLimit and every entry before it
-was processed without a read error or panic (`entryOutcome = ok`) -/
+a first entry at which the guard fires — its declared size is negative as an int64 (>= 2^63 declared
+bytes) or the declared total up to and including it is `>` UnzipSizeLimit — and every entry before
+it was processed (spilled or read; its `Open` did not fail) without the guard firing -/
 theorem limit_rejects_full (l : Limits) (es : List Entry) :
     (∃ s, readZip l {} 0 0 es = .sizeErr s) ↔
-      ∃ k, k < es.length ∧ declSum (es.take (k + 1)) > l.size ∧
-        (∀ j, j < k → ¬ (declSum (es.take (j + 1)) > l.size)) ∧
-        (∀ j, j < k → ∀ e, es[j]? = some e → entryOutcome l e = .ok) := by
-  have hv := readZip_verdictOf l es {} 0 0
-  have hs := verdictOf_sizeErr l es 0
-  simp only [Int.zero_add] at hs
-  rw [← hs, ← hv]
+      ∃ k e, es[k]? = some e ∧ over l (totalBefore 0 es k) e ∧
+        (∀ j e', j < k → es[j]? = some e' → ¬ over l (totalBefore 0 es j) e' ∧ entryOutcome l e' = .ok) := by
+  rw [← verdictOf_sizeErr l es 0, ← readZip_verdictOf l es {} 0 0]
   cases readZip l {} 0 0 es <;> simp [ZRes.verdict]
 
-/-- an entry that cannot be opened, or declares a negative size and is read into memory, never
-yields a successful open: success means the limit is respected by every prefix and every
-entry's outcome is ok -/
+/-- success is total now: ReadZipReader succeeds **iff** the guard fires at no entry and no
+entry's `Open` fails — there is no third possibility besides the size error and the read error -/
 theorem open_ok_iff (l : Limits) (es : List Entry) :
     (∃ s w, readZip l {} 0 0 es = .ok s w) ↔ verdictOf l 0 es = .ok := by
   rw [← readZip_verdictOf l es {} 0 0]
   cases readZip l {} 0 0 es <;> simp [ZRes.verdict]
+
+theorem open_ok_or_error (l : Limits) (es : List Entry) :
+    verdictOf l 0 es = .ok ∨ verdictOf l 0 es = .sizeErr ∨ verdictOf l 0 es = .readErr := by
+  have := verdictOf_ne_panic l es 0
+  cases h : verdictOf l 0 es <;> simp_all
+
+/-- the exact-integer guard of the model is the wrapped 64-bit guard of the code for int64-valued
+sizes and limits (`unzipSize < 0 || unzipSize > limit` after `unzipSize += fileSize`) -/
+theorem guard_matches_int64 (t d size : Int) (ht0 : 0 ≤ t) (ht : t < 9223372036854775808) (hd0 : 0 ≤ d)
+    (hd : d < 9223372036854775808) (hs : size < 9223372036854775808) :
+    (wrap64 (t + d) < 0 ∨ wrap64 (t + d) > size) ↔ t + d > size := guard_wrap_exact t d size ht0 ht hd0 hd hs
 
 /-- the verdict does not depend on UnzipXMLSizeLimit (which parts are spilled) -/
 theorem limit_verdict_independent_of_xml_limit (x1 x2 size : Int) (es : List Entry)
@@ -92,8 +119,8 @@ theorem limit_verdict_independent_of_xml_limit (x1 x2 size : Int) (es : List Ent
 entry, the loop returns at once with the state it had before that entry — neither this entry
 nor any later one is inflated (to memory or to a temp file) -/
 theorem rejected_entry_not_inflated (l : Limits) (st : St) (t : Int) (ws : Nat) (e : Entry) (rest : List Entry)
-    (h : t + e.declared > l.size) : readZip l st t ws (e :: rest) = .sizeErr st := by
-  have hge : cmpOp Facts.C12.sizeGuardOp (t + e.declared) l.size = true := by
+    (h : e.declared < 0 ∨ t + e.declared > l.size) : readZip l st t ws (e :: rest) = .sizeErr st := by
+  have hge : sizeGuard l t e = true := by
     rw [sizeGuard_eq]; exact decide_eq_true h
   rw [readZip_cons, if_pos hge]
 
